@@ -94,8 +94,8 @@ def units(tier, seed):
 
 
 def unit_weight(u):
-    if u["layout"] == "multi-point":
-        return 6
+    if u["layout"] in ("multi-point", "same-body"):
+        return 6         # few, small units: started first so that a wall-clock-capped run on a busy machine still completes them
     return u["n"] + (2 if u["layout"] == "layered" else 0)
 
 
